@@ -369,6 +369,24 @@ func main() {
 			hx.Emit(runCase(s, src, "gen", i, feats))
 			hx.Flush()
 		}
+	case "pinned":
+		// corpus/c29/regress.txt: each program with the read-only Environ and with the one that offers Set
+		start := startArg(o)
+		i := 0
+		for _, e := range hxsh.LoadRegress("c29") {
+			if e.Kind != "prog" || len(e.Progs) != 1 {
+				continue
+			}
+			for v := 0; v < 2; v++ {
+				if i >= start {
+					hx.Emit(map[string]any{"begin": i, "src": hx.Hex(e.Progs[0])})
+					hx.Flush()
+					hx.Emit(runCase(s, e.Progs[0], "pinned", v, []string{"pinned:" + e.Name}))
+					hx.Flush()
+				}
+				i++
+			}
+		}
 	case "corpus":
 		start := startArg(o)
 		progs, err := hxsh.CorpusPrograms(o.In)
